@@ -39,10 +39,12 @@ LEVEL = "model_checking"
 # slices, star-unpacking, import, class with implicit wrappers), so that a conversion which has to *protect* those
 # builtins is part of every history: state it leaves behind in shared preset trees shows in the next conversion.
 _SHADOW = (
-    "".join("%s = %s\n" % (b, b) for b in ["setattr", "hasattr", "iter", "next", "slice", "tuple", "list", "globals", "locals", "__import__", "classmethod", "staticmethod"])
+    "".join("%s = %s\n" % (b, b) for b in ["dict", "setattr", "hasattr", "iter", "next", "slice", "tuple", "list", "globals", "locals", "__import__", "classmethod", "staticmethod"])
     + "for q in [1, 2, 3]:\n    if q == 2:\n        break\n    q += 0\nelse:\n    q = -1\n"
     + "u, *v = [1, 2, 3][0:2]\nimport os.path\nclass W:\n    def __init_subclass__(cls):\n        pass\n    def __class_getitem__(cls, i):\n        return i\n"
-    + "print(q, u, v, os.path.sep == os.sep, W[3])\n"
+    + "def _g():\n    global zz\n    zz = [0, 1, 2]\n    zz[0:2] = [9]\n    return zz\nclass _O:\n    pass\n_o = _O()\n_o.a = [1]\n_o.a += [2]\n"
+    + "class _B:\n    def __init_subclass__(cls, **k):\n        cls.k = sorted(k)\nclass _D(_B, **{'t': 1}):\n    pass\n"
+    + "print(q, u, v, os.path.sep == os.sep, W[3], _g(), zz, _o.a, _D.k)\n"
 )
 PROGRAMS = [
     # ends with an expression deep enough to make ast.unparse overflow the stack, so that every conversion of it with the
